@@ -278,7 +278,7 @@ pub enum NextOut {
 }
 
 impl IterModel {
-    pub fn new(reidx: u32, hay: u32, ascii: bool, text: &str, start: usize) -> IterModel {
+    pub fn new(reidx: u32, spec: &RegexSpec, hay: u32, ascii: bool, text: &str, start: usize) -> IterModel {
         let mut features = 0;
         if start == text.len() {
             features |= F_START_LEN;
@@ -288,7 +288,10 @@ impl IterModel {
             features |= F_START_MID;
         }
         let mut hist = Fnv::default();
-        hist.u64(reidx as u64);
+        hist.str(&spec.pattern);
+        hist.str(&spec.flags);
+        hist.byte(spec.exec as u8);
+        hist.byte(spec.input as u8);
         hist.str(text);
         hist.u64(start as u64);
         IterModel {
@@ -385,7 +388,7 @@ impl IterModel {
                     }
                 }
                 self.count += 1;
-                if bad.is_none() && self.start <= len {
+                if bad.is_none() && self.start <= len && (self.ascii || self.text.is_char_boundary(self.start)) {
                     let positions = if self.ascii { len - self.start } else { self.text[self.start..].chars().count() };
                     if self.count > positions as u64 + 1 {
                         bad = Some(("too-many-matches", format!("<= {} matches", positions + 1)));
@@ -400,7 +403,7 @@ impl IterModel {
                     self.features |= F_EMPTY;
                     if e >= len {
                         self.features |= F_EMPTY_AT_END;
-                    } else if !self.ascii && e < len && self.text[e..].chars().next().map(|c| c.len_utf8() > 1).unwrap_or(false) {
+                    } else if !self.ascii && e < len && self.text.is_char_boundary(e) && self.text[e..].chars().next().map(|c| c.len_utf8() > 1).unwrap_or(false) {
                         self.features |= F_EMPTY_MULTIBYTE;
                     }
                 }
@@ -670,7 +673,7 @@ impl<'a> Client<'a> {
                         let st = Self::resolve_start(text, *start, ascii);
                         // creating the iterator allocates scratch but does not search
                         let it = open_iter(&rx, spec, text, st);
-                        let model = IterModel::new(reidx, hay, ascii, text, st);
+                        let model = IterModel::new(reidx, spec, hay, ascii, text, st);
                         self.set_handle(*h, Handle { it: Some(it), re: Some(rx), obj, model, dead: false });
                         self.rec(format!("Opened(start={})", st), 0, Fault::None);
                     }
@@ -853,6 +856,9 @@ impl<'a> Client<'a> {
         ctx.cur_obj = obj;
         if let Some(s) = self.sh.sched {
             s.set_midsearch(self.tid, obj);
+            if obj != NO_OBJ && matches!(op.kind, OpKind::CloneRegex { .. }) && s.others_midsearch(self.tid, obj) > 0 {
+                self.stats.clone_while_original_midsearch += 1;
+            }
         }
         IN_OP.with(|c| c.set(true));
         ctx.armed = true;
@@ -1273,6 +1279,22 @@ fn compare(world: &World, a: &PassRes, b: &PassRes, bno: u8, clause: &str, viols
     }
 }
 
+/// Crash triage: run only the sequential Fresh pass (passes 2 and 3 are skipped).
+pub static ONLY_PASS1: std::sync::atomic::AtomicBool = std::sync::atomic::AtomicBool::new(false);
+
+fn empty_pass(p1: &PassRes) -> PassRes {
+    PassRes {
+        recs: p1.recs.clone(),
+        c09: Vec::new(),
+        stats: ClientStats::default(),
+        sites: [0; NSITES],
+        steps: 0,
+        ev: 0,
+        trace: Vec::new(),
+        sched_stats: SchedStats::default(),
+    }
+}
+
 pub fn execute(world: &World, explicit: Option<&[Segment]>) -> Exec {
     sched::install_hook();
     install_panic_hook();
@@ -1290,6 +1312,12 @@ pub fn execute(world: &World, explicit: Option<&[Segment]>) -> Exec {
         let sh = PassShared { world, kind: PassKind::Fresh, pass_no: 1, regs: &no_regs, bufs: &bufs, model: &model, pass1: None, sched: None };
         run_pass(&sh)
     };
+
+    if ONLY_PASS1.load(std::sync::atomic::Ordering::Relaxed) {
+        let (p2, p3) = (empty_pass(&p1), empty_pass(&p1));
+        let ms = model.stats.lock().unwrap().clone();
+        return Exec { viols: Vec::new(), p1, p2, p3, cmp: CmpInfo::default(), model: ms, ev: 0, compile_errs: 0 };
+    }
 
     // shared objects, compiled once by the world's main thread
     let regs: Vec<Result<Arc<Regex>, String>> = world.regexes.iter().map(|s| compile(s).map(Arc::new)).collect();
